@@ -87,7 +87,7 @@ PROPS = {
         "technique": T_R2 + "; " + T_R3,
     },
     "C02": {
-        "clauses": [fam("Mul"), signed("Mul"), both(r3.check_underflow_asserts), r3.check_add2_carry_used, r8.check_cost_general, r5check.check_arithmetic({"Mul"}, 15)],
+        "clauses": [fam("Mul"), signed("Mul"), both(r3.check_underflow_asserts), r3.check_add2_carry_used, r8.check_cost_general, r8.check_shorter_first, r5check.check_arithmetic({"Mul"}, 15)],
         "not_decided": "temporary sizing, the Karatsuba/Toom-3 algebra, mac_with_carry arithmetic, the power-of-two shortcut (all value-level)",
         "level_text": "Decides: all Mul operator forms forward with operands in either order only because * is commutative, or are reviewed implementations; the carry-overflow "
         "assertion of mac_digit is mandatory in release builds and tests the carry returned by __add2; no call site drops a carry; the regime dispatch has a "
